@@ -175,6 +175,7 @@ func registerHarnessAPI(e *Exec) {
 					s2 = st.fork()
 				}
 				s2.assume(c)
+				s2.tag += fmt.Sprintf("|%s=%d", name, k)
 				e.addInput(s2, InputDecl{Name: name, Kind: "bytes", T: ln, Arr: arr, Max: max})
 				id := e.alloc(s2, ByteBuf{C: &CBase{arr}, Len: kt})
 				outs = append(outs, Outcome{st: s2, rets: []Value{SliceV{Base: Ptr{Obj: id}, Off: e.tc.Int(0), Len: kt, Cap: kt}}})
@@ -217,6 +218,7 @@ func registerHarnessAPI(e *Exec) {
 					s2 = st.fork()
 				}
 				s2.assume(c)
+				s2.tag += fmt.Sprintf("|%s=%d", name, i)
 				outs = append(outs, Outcome{st: s2, rets: []Value{BV{e.tc.Int(int64(i))}}})
 			}
 			e.stats.Forks += len(outs)
